@@ -31,6 +31,9 @@ use serde_json::{json, Value};
 use std::collections::HashSet;
 use std::net::IpAddr;
 
+#[path = "c07_conn.rs"]
+mod c07_conn;
+
 //------------ expectation model ---------------------------------------------
 
 #[derive(Clone, Debug, PartialEq, Eq)]
@@ -1240,6 +1243,9 @@ pub fn run(ctx: &mut Ctx) {
             huge_lengths(ctx, &mut mon);
         }
     }
+
+    // the readers one level up: Client::step and the server's connection task
+    c07_conn::run_conn(ctx);
 
     ctx.evals(mon.evals);
     ctx.obs("reads_ok", mon.ok_reads);
